@@ -18,11 +18,12 @@ pipeline stage in two forms), sharing the process-wide `World`.  `subshell_prese
 is the property; its guard is "no `umask`/`ulimit` in the subshell" for the `World` half, and the
 full statement is refuted by `subshell_cex_umask` / `subshell_cex_ulimit` (`(umask 077); umask`
 prints 0077 today).  `nothing_else_flows_back_partial` says the parent afterwards is a function of
-its own activity, the subshell's status and its output — guarded by "the parent's line goes on",
-which fails only when a pipeline stage ends in a Rust `Err` (`stage_error_cex`:
-`cd /nonexistent | true; echo after`).  The `lastpipe` theorems separate the last command of a
-pipeline (the parent's own under `shopt -s lastpipe`, its effects persist) from all earlier stages
-(always isolated).
+its own activity, the subshell's status and its output.  `parent_continues` and
+`stage_error_stays_in_stage`: the parent's line goes on after every context, also when a pipeline
+stage ends in a Rust `Err` (`cd /nonexistent | true; echo after` — repaired in brush by a653878; the
+former counter-example is now this positive theorem).  The `lastpipe` theorems separate the last
+command of a pipeline (the parent's own under `shopt -s lastpipe`, its effects persist) from all
+earlier stages (always isolated).
 `concurrent_child_invisible_partial` covers every interleaving of a background body with parent
 activity.
 -/
@@ -142,30 +143,51 @@ theorem umask_leaks_in_every_context :
 
 /-! ## only status and output come back -/
 
-/-- **Nothing else flows back.**  If no `umask`/`ulimit` runs in the subshell and the parent's command
-line goes on (which it always does outside pipelines of builtin stages, `parent_continues_partial`),
-then what the parent observes afterwards — its `Shell` value, the process, `$?`, the text received —
-is determined by its own activity together with the subshell's status and output. -/
+/-- **The parent's command line always goes on.**  After every subshell context — also after a
+pipeline in which a stage ends in a Rust `Err` (`cd /nonexistent | true; echo after` prints `after`) —
+the rest of the parent's line runs.  (For a pipeline whose last command is the parent's own see
+`pipeline_line_ends_only_by_own_exit`.) -/
+theorem parent_continues (root : List Str) (c : Ctx) (ms : List Mut) (p : ShellPart) (w : World)
+    (hc : c ≠ .pl) : (exec root c ms p w).aborted = false :=
+  exec_aborted root c ms p w hc
+
+/-- **A failing stage fails alone.**  `m1 | … | true` with any stages whatsoever (failing `cd`,
+`readonly`/`unset` of a read-only name, `exit`, …): the parent's `Shell` value is unchanged, `$?` is
+that of the last stage, nothing is received, the line goes on. -/
+theorem stage_error_stays_in_stage (root : List Str) (ms : List Mut) (p : ShellPart) (w : World) :
+    (exec root .stages ms p w).shell = p ∧ (exec root .stages ms p w).status = 0 ∧
+    (exec root .stages ms p w).out = [] ∧ (exec root .stages ms p w).aborted = false :=
+  exec_stages root ms p w
+
+/-- the stage really ends in a Rust `Err` in the witness, and the parent carries on -/
+example : (stepShell [] (.cd "nx".toList) (defaultShell [])).err = true ∧
+    (exec [] .stages [.cd "nx".toList, .exit 3] (defaultShell []) ⟨18, 1024⟩).aborted = false ∧
+    (exec [] .pl [.cd "nx".toList, .true_] (defaultShell []) ⟨18, 1024⟩).aborted = false := by decide
+
+/-- In `m1 | … | { mk; }` the parent's line is abandoned exactly when the last command is the
+parent's own (`lastpipe`, or a pipeline of one command) and is an `exit`: never by a subshell. -/
+theorem pipeline_line_ends_only_by_own_exit (root : List Str) (init : List Mut) (l : Mut) (p : ShellPart) (w : World) :
+    (exec root .pl (init ++ [l]) p w).aborted =
+      ((lastpipeOn p || init.isEmpty) && (stepShell root l p).exited) :=
+  pl_aborted root init l p w
+
+/-- **Nothing else flows back.**  If no `umask`/`ulimit` runs in the subshell (and, for a pipeline
+whose last command is the parent's own, that command is not an `exit`), then what the parent
+observes afterwards — its `Shell` value, the process, `$?`, the text received, and that its line goes
+on — is determined by its own activity together with the subshell's status and output. -/
 theorem nothing_else_flows_back_partial (root : List Str) (c : Ctx) (ms : List Mut) (p : ShellPart) (w : World)
     (hw : ∀ m ∈ ms, m.touchesWorld = false)
-    (he : (exec root c ms p w).aborted = false) :
+    (he : c = .pl → (exec root c ms p w).aborted = false) :
     exec root c ms p w =
       { shell := parentOwn root c ms p, world := w, status := (exec root c ms p w).status,
         out := (exec root c ms p w).out, aborted := false } :=
   exec_eq root c ms p w hw he
 
-/-- The parent's line goes on after every context other than a pipeline of builtin stages; after
-`m1 | … | true` it goes on exactly when no stage ends in a Rust `Err`. -/
-theorem parent_continues_partial (root : List Str) (c : Ctx) (ms : List Mut) (p : ShellPart) (w : World) :
-    (c ≠ .stages ∧ c ≠ .pl → (exec root c ms p w).aborted = false) ∧
-    (exec root .stages ms p w).aborted = stagesErr fresh root ms p :=
-  ⟨exec_aborted root c ms p w, exec_aborted_stages root ms p w⟩
-
 /-- Two subshell bodies with the same status and output, under the same own activity of the parent,
 are indistinguishable to the parent. -/
 theorem only_status_and_output_flow_back (root : List Str) (c : Ctx) (ms₁ ms₂ : List Mut) (p : ShellPart) (w : World)
     (h₁ : ∀ m ∈ ms₁, m.touchesWorld = false) (h₂ : ∀ m ∈ ms₂, m.touchesWorld = false)
-    (e₁ : (exec root c ms₁ p w).aborted = false) (e₂ : (exec root c ms₂ p w).aborted = false)
+    (e₁ : c = .pl → (exec root c ms₁ p w).aborted = false) (e₂ : c = .pl → (exec root c ms₂ p w).aborted = false)
     (ho : parentOwn root c ms₁ p = parentOwn root c ms₂ p)
     (hs : (exec root c ms₁ p w).status = (exec root c ms₂ p w).status)
     (hout : (exec root c ms₁ p w).out = (exec root c ms₂ p w).out) :
@@ -178,22 +200,11 @@ example :
     exec ["r".toList] .paren ms₁ (defaultShell ["r".toList]) ⟨18, 1024⟩ =
       exec ["r".toList] .paren ms₂ (defaultShell ["r".toList]) ⟨18, 1024⟩ := by decide
 
-/-- Full statement: the parent's command line always goes on after a subshell context. -/
-def parent_continues_full : Prop :=
-  ∀ (root : List Str) (c : Ctx) (ms : List Mut) (p : ShellPart) (w : World), (exec root c ms p w).aborted = false
-
-/-- `cd nx | true; echo after`: the stage's `Err` abandons the rest of the parent's line. -/
-theorem stage_error_cex : ¬ parent_continues_full := by
-  intro h
-  have := h [] .stages [.cd "nx".toList] (defaultShell []) ⟨18, 1024⟩
-  revert this; decide
-
 /-- An `exit` in a subshell never ends the parent, in any context (the parent's line goes on). -/
 theorem exit_stays_in_subshell (root : List Str) (c : Ctx) (n : Nat) (p : ShellPart) (w : World)
     (hc : c ≠ .pl) :
-    (exec root c [.exit n] p w).aborted = false ∧ (exec root c [.exit n] p w).shell = prepare c p := by
-  refine ⟨?_, subshell_preserves_parent_value root c _ p w hc⟩
-  cases c <;> simp_all [exec, execWith, stagesErr, stepShell]
+    (exec root c [.exit n] p w).aborted = false ∧ (exec root c [.exit n] p w).shell = prepare c p :=
+  ⟨exec_aborted root c _ p w hc, subshell_preserves_parent_value root c _ p w hc⟩
 
 /-! ## a background body interleaved with parent activity -/
 
